@@ -11,20 +11,20 @@ import (
 // Shape tunes the shared adversarial-asynchronous world generator towards
 // what a property needs.
 type Shape struct {
-	MaxN         int
-	MinN         int
-	MaxHeights   int
-	NoFaults     bool // all validators honest
-	NoRestart    bool
-	ForceAMEV    int // 0: drawn, 1: off, 2: on
-	Profile      string
-	StepsFactor  int // percent
-	Watchers     bool
-	ChangingSets bool // validator set changes between heights (C05)
-	MaybeChanging int // percent of runs with changing validator sets
-	ManyTxs      bool
-	Avoid        map[string]bool
-	Probes       int
+	MaxN          int
+	MinN          int
+	MaxHeights    int
+	NoFaults      bool // all validators honest
+	NoRestart     bool
+	ForceAMEV     int // 0: drawn, 1: off, 2: on
+	Profile       string
+	StepsFactor   int // percent
+	Watchers      bool
+	ChangingSets  bool // validator set changes between heights (C05)
+	MaybeChanging int  // percent of runs with changing validator sets
+	ManyTxs       bool
+	Avoid         map[string]bool
+	Probes        int
 }
 
 var epoch0 = time.Date(2024, 1, 1, 0, 0, 0, 0, time.UTC)
@@ -86,17 +86,18 @@ func RunSafety(r sim.Src, mons []*sim.Mon, keepLog bool, sh Shape) *sim.World {
 	budget := 0
 	for i := 0; i < nf; i++ {
 		if sh.NoRestart || r.Intn("faultkind", 10) < 7 {
-			// choose a not yet chosen validator identity
-			for {
-				c := r.Intn("byzid", n)
-				dup := watch[c]
+			// choose a not yet chosen validator identity (scan forward from a drawn start)
+			c := r.Intn("byzid", n)
+			for k := 0; k < n; k++ {
+				cand := (c + k) % n
+				dup := watch[cand]
 				for _, b := range byz {
-					if b == c {
+					if b == cand {
 						dup = true
 					}
 				}
 				if !dup {
-					byz = append(byz, c)
+					byz = append(byz, cand)
 					break
 				}
 			}
